@@ -22,6 +22,7 @@ class Report:
         self.updates = []  # dict(comp, time, next, justified, reason, chain_len, lacking)
         self.unjustified = []
         self.lacking_at_update = []
+        self.lacking_by_push_log = []  # same question answered from the recorder's own log of publications
         self.pull_failures = []  # dict(comp, input, t, exc, msg)
         self.request_mismatch = []  # dict(comp, input, need, requested)
         self.requests_compared = 0
@@ -62,6 +63,11 @@ def run_spec(spec, *, connect_only=False, memory=None, location="spill", check_m
                                                   times={c.name: hrs(c.time) for c in tcomps}))
             elif not ok:
                 rep.unjustified.append(dict(comp=comp.name, time=hrs(comp.time), reason=reason, times={c.name: hrs(c.time) for c in tcomps}))
+            for (o, outp, need, _via, _first, _last) in model_sched.needs(comp, owners):
+                have = newest_pub.get(outp)
+                if have is None or have < need:
+                    rep.lacking_by_push_log.append(dict(comp=comp.name, next=hrs(comp.next_time), source=f"{o.name}.{outp.name}", needs=hrs(need),
+                                                        newest_publication_seen=hrs(have), output_time_attr=hrs(outp.time)))
             # what will be requested from each source output over links without a push-based adapter
             exp = {}
             for (o, out, need, _via, first, last) in model_sched.needs(comp, owners):
@@ -95,6 +101,13 @@ def run_spec(spec, *, connect_only=False, memory=None, location="spill", check_m
             exp.remove(time)
         else:
             rep.request_mismatch.append(dict(comp=cu.name, output=f"{owners[out].name}.{out.name}", model_needs=[hrs(x) for x in exp], requested=hrs(time)))
+
+    newest_pub = {}
+
+    def on_push_ret(outp, _ret, data=None, time=None):
+        if outp in comp_outputs and time is not None and outp.has_targets:
+            if newest_pub.get(outp) is None or time > newest_pub[outp]:
+                newest_pub[outp] = time
 
     def on_pull_err(inp, exc, time=None, target=None):
         cu = current_update()
@@ -130,6 +143,7 @@ def run_spec(spec, *, connect_only=False, memory=None, location="spill", check_m
     REC.on("update_entry", on_update_entry)
     REC.on("out_get_data", on_out_get_data)
     REC.on("in_pull_data_err", on_pull_err)
+    REC.on("out_push_data_ret", on_push_ret)
     REC.on("ada_finalize", on_ada_finalize)
     for ev, fn in (listeners or {}).items():
         REC.on(ev, fn)
